@@ -196,3 +196,20 @@ Definition cut_off (max s : N) : bool := negb (max =? 0) && (max <? s).
 (* no GOAWAY among these frames has cut s off *)
 Definition spares (s : N) (f : bool * dframe) : Prop :=
   match snd f with FGoAway l _ => s <= l | _ => True end.
+
+(* no request HEADERS on stream s carries a test name *)
+Definition no_name_on (s : N) (fs : list (bool * dframe)) : Prop :=
+  forall es fields, In (true, FHeaders s es fields) fs -> is_nil (test_name fields) = true.
+
+(* ---------------------------------------------------------------------------------------- *)
+(* several streams on one connection                                                        *)
+(* ---------------------------------------------------------------------------------------- *)
+Record xch := mkXch { xc_sid : N; xc_frames : list (bool * dframe); xc_out : outcome }.
+
+(* fs is an interleaving of the exchanges xs (plus frames handleFrame ignores: SETTINGS, PING, ...):
+   the streams have distinct ids, the frames of each stream, in order, are an exchange of the grammar,
+   every stream frame belongs to one of them, and there is no GOAWAY (for GOAWAY see goaway_keeps_lower) *)
+Definition interleaving_of (xs : list xch) (fs : list (bool * dframe)) : Prop :=
+  NoDup (map xc_sid xs) /\
+  Forall (fun e => exchange (xc_sid e) (xc_frames e) (xc_out e) /\ filter (own (xc_sid e)) fs = xc_frames e) xs /\
+  Forall (fun f => is_goaway (snd f) = false /\ forall t, fsid (snd f) = Some t -> In t (map xc_sid xs)) fs.
